@@ -311,6 +311,27 @@ func (f *Facts) path0(v ssa.Value) string {
 	case *ssa.UnOp:
 		switch x.Op {
 		case token.MUL:
+			// a local variable assigned exactly once (x := getter()) is an alias of what it was assigned
+			if cell, ok := x.X.(*ssa.Alloc); ok {
+				if st := f.storesToCell(cell); len(st) == 1 {
+					if _, isCall := st[0].(*ssa.Call); isCall {
+						if p := f.path(st[0]); !strings.HasPrefix(p, "call@") && !strings.HasPrefix(p, "rec@") {
+							return p
+						}
+					}
+				}
+			}
+			if fv, ok := x.X.(*ssa.FreeVar); ok {
+				if cell := f.ownerCell(fv); cell != nil {
+					if st := f.storesToCell(cell); len(st) == 1 {
+						if _, isCall := st[0].(*ssa.Call); isCall {
+							if p := f.path(st[0]); !strings.HasPrefix(p, "call@") && !strings.HasPrefix(p, "rec@") {
+								return p
+							}
+						}
+					}
+				}
+			}
 			return deref(f.path(x.X))
 		case token.NOT:
 			return "!" + f.path(x.X)
@@ -378,7 +399,16 @@ func (f *Facts) path0(v ssa.Value) string {
 
 func shortCallee(n string) string {
 	if i := strings.LastIndex(n, "/"); i >= 0 {
-		return n[i+1:]
+		pre := ""
+		switch {
+		case strings.HasPrefix(n, "iface:"):
+			pre = "iface:"
+		case strings.HasPrefix(n, "(*"):
+			pre = "(*"
+		case strings.HasPrefix(n, "("):
+			pre = "("
+		}
+		return pre + n[i+1:]
 	}
 	return n
 }
